@@ -2,6 +2,7 @@ package drivers
 
 import (
 	"context"
+	"encoding/base64"
 	"errors"
 	"fmt"
 	"math/rand"
@@ -18,7 +19,9 @@ import (
 	dht "github.com/libp2p/go-libp2p-kad-dht"
 	pb "github.com/libp2p/go-libp2p-kad-dht/pb"
 	"github.com/libp2p/go-libp2p-kad-dht/records"
+	record "github.com/libp2p/go-libp2p-record"
 	recpb "github.com/libp2p/go-libp2p-record/pb"
+	"github.com/libp2p/go-libp2p/core/crypto"
 	"github.com/libp2p/go-libp2p/core/host"
 	"github.com/libp2p/go-libp2p/core/peer"
 	"github.com/libp2p/go-libp2p/core/protocol"
@@ -137,6 +140,7 @@ type lookupEnv struct {
 	quiet  bool // warm-up phase: nothing is logged
 	dstore ds.Batching
 	hostAddrs []ma.Multiaddr
+	target    peer.ID
 }
 
 func (e *lookupEnv) now() int { return int(time.Since(e.start) / time.Millisecond) }
@@ -149,6 +153,51 @@ func (e *lookupEnv) script(p peer.ID) *PeerScript {
 		return &PeerScript{Dial: "fail", Req: "fail"}
 	}
 	return &e.sc.Scripts[r-1]
+}
+
+type rsaKey struct {
+	id  peer.ID
+	pub []byte
+}
+
+var rsaCache []rsaKey
+
+// fixed RSA public keys (marshalled, base64), so that peer ids, ranks and
+// therefore replays are identical in every process
+var rsaPubB64 = []string{
+	"CAASpgIwggEiMA0GCSqGSIb3DQEBAQUAA4IBDwAwggEKAoIBAQDhRHODkGeWeTGLktPrb59V3n0b5ajaEhckXXdhV/maxD3DNMJfv2WWzYp6u5EaCLVaP/i/c/DkVxwmJH3dCtodAtU12p1s9CIoAZU9hMlOlQZvRHGDORLA+SBlg+YauEPqVswUHsR35TdIOMzxyg7VF8nmLFqKxEy2uczeNxMAY0J3IFPTY23txxxzKTZfpKMSVVqh4yeBM+TH4/3LVx/ECnXvRuckpwFMyVRYizcOGJQsPNQBYZqKGkHiV1HwtqKMc7mwJ1nczBv92hPSSg+wqk70JfhxSSbJVgDUoPpLsN3jYcU0pIYJThijmg5f5k5eT6lIe7hAQSdRnCj+DvWlAgMBAAE=",
+	"CAASpgIwggEiMA0GCSqGSIb3DQEBAQUAA4IBDwAwggEKAoIBAQDMSbljitchr+ZNr/8Kdu3/xlfZuJja9W/KQGKAdmn0u5IZyIAPguwKMMsaZyCuC6fY69NoJqj94jwfGWPHGvFLR712lzCQygzkIYfZVSev/SOTp8O+dMrUdWIugotKZBePxCm5ehoYk6pa1D/fNr7pM/mKb/sbEHiaY93Q8Wo2HACvsBgwhOU8XBN1W3SED+guiRnwwQZ+83UBRbareUW1gDlapHnM4l+Sfa0I3Lxyg2pSi+Fy+4dTDW5FYEF9JN1autXHsoJZWmKSymCH8rwiKDvLhStIXCES2L8fnLO2ky+K7ovNgGPbqsC1vqAOnHkoEfr2hlvwfOU9O8XvNIyZAgMBAAE=",
+}
+
+// rsaKeys returns two RSA identities whose ids do not inline the key.
+func rsaKeys() []rsaKey {
+	if rsaCache != nil {
+		return rsaCache
+	}
+	for _, s := range rsaPubB64 {
+		b, err := base64.StdEncoding.DecodeString(s)
+		if err != nil {
+			panic(err)
+		}
+		pub, err := crypto.UnmarshalPublicKey(b)
+		if err != nil {
+			panic(err)
+		}
+		id, _ := peer.IDFromPublicKey(pub)
+		rsaCache = append(rsaCache, rsaKey{id, b})
+	}
+	return rsaCache
+}
+
+func pkValue(v string) []byte {
+	switch v {
+	case "pk:right":
+		return rsaKeys()[0].pub
+	case "pk:other":
+		return rsaKeys()[1].pub
+	default:
+		return []byte("not a public key")
+	}
 }
 
 // lookupKeyFor is the key of value / closest-peers scenarios.
@@ -165,6 +214,12 @@ func buildLookupEnv(t *testing.T, sc *Scenario) *lookupEnv {
 	}
 	e := &lookupEnv{sc: sc, gate: &sim.Gate{}, tr: &sim.Trace{}, start: time.Now(), reject: map[peer.ID]bool{}}
 	switch sc.Op {
+	case "getpubkey":
+		// the target is a peer whose id does not inline its (RSA) public key
+		tk := rsaKeys()[0]
+		peers[r.Intn(len(peers))] = tk.id
+		e.key = routing.KeyForPublicKey(tk.id)
+		e.target = tk.id
 	case "findpeer":
 		// the target is one of the peers; it becomes rank 1 (distance 0)
 		e.key = string(peers[r.Intn(len(peers))])
@@ -274,7 +329,7 @@ func buildLookupEnv(t *testing.T, sc *Scenario) *lookupEnv {
 		dht.Resiliency(sc.Beta),
 		dht.DisableAutoRefresh(),
 		dht.Mode(dht.ModeClient),
-		dht.Validator(simValidator{}),
+		dht.Validator(record.NamespacedValidator{"v": simValidator{}, "pk": record.PublicKeyValidator{}}),
 		dht.Datastore(e.dstore),
 		dht.WithCustomMessageSender(func(h host.Host, protos []protocol.ID) pb.MessageSenderWithDisconnect { return e.sender }),
 		dht.QueryFilter(func(_ any, ai peer.AddrInfo) bool { return !e.reject[ai.ID] }),
@@ -420,7 +475,10 @@ func (e *lookupEnv) release(it *sim.Parked) {
 		case pb.Message_GET_VALUE:
 			resp.CloserPeers = e.pbPeers(s.Closer, s.NoAddr)
 			closer = sim.Ints(s.Closer)
-			if s.Val != "" {
+			if strings.HasPrefix(s.Val, "pk:") {
+				resp.Record = &recpb.Record{Key: rpc.Msg.GetKey(), Value: pkValue(s.Val)}
+				val = s.Val
+			} else if s.Val != "" {
 				k := rpc.Msg.GetKey()
 				if s.ValKey != "" {
 					k = []byte(s.ValKey)
@@ -445,6 +503,9 @@ func (e *lookupEnv) release(it *sim.Parked) {
 		o.Resp = resp
 	}
 	vvalid, vrank := valRank([]byte(val))
+	if strings.HasPrefix(val, "pk:") {
+		vvalid, vrank = val == "pk:right", 0
+	}
 	// the events caused by the release are buffered until the next flush, so
 	// logging right after a successful release keeps the causal order
 	if e.gate.Release(it, o) {
